@@ -34,8 +34,11 @@ def make_history(r, n):
             calls.append({"op": "glycan", "iupac": pick(), "kw": kw, "methods": methods})
         elif k <= 6:
             c = {"op": "convert", "verbose": r.choice(["none", "none", "info"]), "mode": r.choice(["return", "return", "stdout", "file"])}
-            shape = r.randint(0, 2)
-            if shape == 0:
+            shape = r.randint(0, 3)
+            if shape == 3:
+                c["glycan_list"] = [pick() for _ in range(r.randint(1, 3))]
+                c["file_lines"] = [pick() for _ in range(r.randint(1, 3))]
+            elif shape == 0:
                 c["glycan"] = pick()
             elif shape == 1:
                 c["glycan_list"] = [pick() for _ in range(r.randint(1, 4))]
